@@ -123,7 +123,7 @@ func TestC28Worker(t *testing.T) {
 				sut.Stop()
 				sut = nil
 			}
-			s, err := authStartSUT(authSUTOpts{Config: c28RouterConfig(), Rules: c28RouterRules(), OnError: onError, Peer: true,
+			s, err := authStartSUT(authSUTOpts{Config: c28RouterConfig(), Rules: c28RouterRules(), OnError: onError, Peer: true, HoneyDiscard: true,
 				KeyIDs: map[string]string{}})
 			if err != nil {
 				enc.Encode(c28Reply{Err: err.Error()})
@@ -651,6 +651,26 @@ func c28TopFrames(stack string) (top, refinery string) {
 	return
 }
 
+// c28CrashInHarness: the crashing goroutine runs harness code (fake upstream,
+// worker loop) and no refinery code at all.
+func c28CrashInHarness(dump string) bool {
+	lines := strings.Split(dump, "\n")
+	in := false
+	for _, l := range lines {
+		if strings.HasPrefix(l, "goroutine ") {
+			if in {
+				break
+			}
+			in = strings.Contains(l, "[running")
+			continue
+		}
+		if in && strings.Contains(l, "/verifharness/") {
+			return true
+		}
+	}
+	return false
+}
+
 var c28MallocSize = regexp.MustCompile(`runtime\.mallocgc\(0x([0-9a-f]+)`)
 
 // c28ClassifyDeath turns the stderr of a dead child into a short stable label.
@@ -671,6 +691,9 @@ func c28ClassifyDeath(d *c28Death) (label string, oomBytes uint64) {
 			kind = "fatal"
 		}
 		top, ref := c28TopFrames(dump)
+		if ref == "" && c28CrashInHarness(dump) {
+			return "harness-code-in-child", 0
+		}
 		where := ref
 		if where == "" {
 			where = top
